@@ -33,12 +33,13 @@ def tags(ast):
                 d = max(d, 1 + nest_depth(b))
         return d
 
-    def walk(chain, depth, in_mult=False):
+    def walk(chain, depth, in_mult=False, dirty=False):
+        # dirty: some enclosing chain that itself lies inside a branch holds a branch in front of the path to here
         for i, it in enumerate(chain):
             shown = it.get('mult', 1) > 1 or it.get('show1')
             m = it.get('mult', 1)
             if shown and it['branches']:
-                if m >= 2 and depth > 0 and (depth >= 2 or in_mult or any(x['branches'] for x in chain[:i])):
+                if m >= 2 and depth > 0 and (dirty or in_mult or any(x['branches'] for x in chain[:i])):
                     out.add('R6c')                     # multiplied unit inside a branch that already contains a branch / nested twice / inside a multiplied branch
                 if m >= 2 and len(it['branches']) > 1:
                     out.add('R6a')                     # more than one branch on the multiplied anchor
@@ -56,8 +57,9 @@ def tags(ast):
                         out.add('ring-in-unit')
                 if it.get('rings'):
                     out.add('ring-in-unit')
-            for b in it['branches']:
-                walk(b, depth + 1, in_mult or (shown and m >= 2))
+            for bi, b in enumerate(it['branches']):
+                walk(b, depth + 1, in_mult or (shown and m >= 2),
+                     dirty or (depth >= 1 and (bi > 0 or any(x['branches'] for x in chain[:i]))))
     walk(ast, 0)
     return out
 
